@@ -66,7 +66,7 @@ def nested_shape(shape, n, tseed):
     return parts[0]
 
 
-def symbols(n, nsites, dseed, pdiff):
+def symbols(n, nsites, dseed, pdiff, gaps=0.0):
     """pdiff: one value for all sites, or a list with one value per site (a conserved column next to
     saturated ones gives site likelihoods hundreds of orders of magnitude apart)"""
     rng = random.Random(dseed)
@@ -82,6 +82,13 @@ def symbols(n, nsites, dseed, pdiff):
         pd = pdiff[k % len(pdiff)] if isinstance(pdiff, list) else pdiff
         base = rng.choice("ACGT")
         cols.append([base if rng.random() > pd else rng.choice("ACGT") for _ in range(n)])
+    if gaps:
+        # missing data: gaps, unknowns and ambiguity codes (all read as 'any state' without use_ambiguities)
+        g = random.Random(dseed + 7919)
+        for col in cols:
+            for i in range(n):
+                if g.random() < gaps:
+                    col[i] = g.choice("-?NRY")
     return cols
 
 
@@ -109,7 +116,7 @@ class Ref:
         self.c = c
         self.n = n
         self.topo = Topo(nested_shape(c["shape"], n, c["tseed"]))
-        self.cols = symbols(n, c["nsites"], c["dseed"], c["pdiff"])
+        self.cols = symbols(n, c["nsites"], c["dseed"], c["pdiff"], c.get("gaps", 0.0))
         self.tv = {i: np.array([OL.tip_vector("nucleotide", col[i], "noamb") for col in self.cols]) for i in range(n)}
         self.rates, self.probs = site_cats(c["site"])
         self.cache = {}
@@ -239,6 +246,7 @@ def base_case(draw, bands=None):
         "tseed": draw(st.integers(0, 10**6)), "dseed": draw(st.integers(0, 10**6)), "lseed": draw(st.integers(0, 10**6)),
         "model": m, "site": site, "nsites": draw(st.integers(1, 4)), "pdiff": draw(st.one_of(st.sampled_from([0.0, 0.3, 0.75, 0.75]), st.lists(st.sampled_from([0.0, 0.0, 0.3, 0.75]), min_size=4, max_size=4))),
         "palette": [draw(logu(0.05, 3.0)) for _ in range(draw(st.integers(1, 4)))],
+        "gaps": draw(st.sampled_from([0.0, 0.0, 0.01, 0.05])),
         "band": draw(st.sampled_from(bands or ["comfortable", "above_normal", "subnormal", "subnormal", "beyond", "beyond", "far"])),
         "tip": draw(st.sampled_from(["noamb", "states"])),
     }
